@@ -88,8 +88,10 @@ def shell_text(script, uname, tag, mdir, to_file=True, letter=None, extra=False)
     # the result goes into the declared return file, or to stdout for jobs that declare none
     # `letter`: shell text that yields the input's identifying letter (default: the literal tag)
     write = f"printf %s {uname}:{letter or tag}:n$n" + (" > res.txt" if to_file else "")
-    first = {"S": write, "F": "exit 3", "O": ":", "W": write}
-    second = {"S": ":", "F": ":", "O": ":", "W": "exit 3"}
+    # K / G: the first command produces the result and is then killed by SIGKILL / SIGSEGV (the runner sees a
+    # NEGATIVE return code); Z: killed by SIGKILL before producing anything
+    first = {"S": write, "F": "exit 3", "O": ":", "W": write, "K": write + "; kill -KILL $$", "G": write + "; kill -SEGV $$", "Z": "kill -KILL $$"}
+    second = {"S": ":", "F": ":", "O": ":", "W": "exit 3", "K": ":", "G": ":", "Z": ":"}
     if not script or any(c not in first for c in script):
         raise HarnessError(f"unknown script {script}")
 
@@ -267,7 +269,11 @@ class Model:
 def script_outcome(script, n):
     """(all commands succeeded, result produced) of execution number n (1-based)."""
     c = script[min(n, len(script)) - 1]
-    return {"S": (True, True), "F": (False, False), "O": (True, False), "W": (False, True)}[c]
+    return {"S": (True, True), "F": (False, False), "O": (True, False), "W": (False, True), "K": (False, True), "G": (False, True), "Z": (False, False)}[c]
+
+
+def script_letter(script, n):
+    return script[min(n, len(script)) - 1]
 
 
 class World:
@@ -566,6 +572,7 @@ class World:
         todo = [k for k in self.keys if k not in m.dest]
         newdest = dict(m.dest)
         how = {}
+        signalled = set()  # keys with a unit whose command was killed by a signal in this run
         result = {}  # unit -> what this run has for it: the record of its execution, or the reused cached record
         for k in self.keys:
             for u in self.units[k]:
@@ -594,6 +601,8 @@ class World:
                     letter = m.tag if (not self.vary or self.vary in VARY_VISIBLE) else TAGS[0]
                     rec = (m.tag, cok, hasfile, f"{un}:{letter}:n{n}".encode() if hasfile else None)
                     result[un] = rec
+                    if script_letter(self.plan[u], n) in "KGZ":
+                        signalled.add(k)
                     how[un] = "executed"
                     if cok and (hasfile or self.decl != "file"):
                         m.cache[un] = rec  # the run succeeded: its output is the cached output from now on
@@ -623,6 +632,8 @@ class World:
                 outcome_class[k] = "succeeded"
             elif all(r is not None and r[2] for r in recs):
                 outcome_class[k] = "failed-after-writing-the-file" if self.decl == "file" else "failed-after-printing-the-result"
+                if k in signalled:
+                    outcome_class[k] = "killed-by-a-signal-after-producing-the-result"
             elif all(r is not None and r[1] for r in recs):
                 outcome_class[k] = "return-file-missing" if self.decl == "file" else "empty-result"
             else:
@@ -931,6 +942,7 @@ def run(ctx):
         "every run starts with leftovers of earlier runs in place: the .inp/.out files of all earlier runs of the history plus stray <unit>.err / .out~ / .out.tmp / .inp.bak files and an abandoned scratch directory holding a result file",
         "what a FAILED execution leaves in the cache (its own output, nothing, or the previous output untouched) is not constrained; the model follows what is found there for later reuse decisions - the RESULT of the run is always that of the run's own execution: a failed item is absent from the destination, never served from an earlier run's output",
         "a cached output is reused iff the current JobInput equals the one it was computed from in EVERY field (jid, commands, files, return_files, envars, timeout: the unchanged code hashes attrs.asdict of the whole input; no field is deliberately ignored)",
+        "a command terminated by a signal has failed like one that exits non-zero (the runner reports a negative return code): the item is not stored, whatever it wrote before, and is executed again in the next run",
         "n_workers=1; the destination is a plain Collection[bytes] on the Ukv backend, the sources are a MoleculeLibrary / ConformerLibrary",
     ]
     import attrs as _attrs
@@ -969,6 +981,10 @@ def run(ctx):
             parts += [(2, T, False, c) for c in chunk(configs("single", k2, [("S",), ("F",)], foreign_opts=NF, prepop=False, vary=v), 2)]
             if v in ("jid", "envars-value", "timeout"):
                 parts += [(2, T, False, configs("vector", k2, [("S", "S")], foreign_opts=NF, prepop=False, vary=v))]
+        # commands terminated by a signal (negative return code), after / before producing the result
+        parts += [(2, T, False, c) for c in chunk(configs("single", k2, [("K",), ("G",), ("Z",)], foreign_opts=NF), nproc)]
+        parts += [(2, T, False, c) for c in chunk(configs("vector", k2, [("K", "S"), ("S", "G"), ("Z", "S")], foreign_opts=NF, prepop=False), nproc)]
+        parts += [(2, T, False, c) for c in chunk(configs("single", k2, [("K",), ("SK",)], "none", foreign_opts=NF, prepop=False), 4)]
         # key alphabets
         for name, ks in KEYSETS.items():
             parts += [(2, T, False, c) for c in chunk(configs("single", ks, [("S",), ("F",)], foreign_opts=NF, prepop=False), nproc)]
@@ -1004,6 +1020,13 @@ def run(ctx):
         parts += [(2, T, False, x) for x in chunk(configs("single", k2, [("SF",), ("SW",)], strict=False, foreign_opts=NF), nproc)]
         parts += [(2, T, True, x) for x in chunk(configs("single", k2, [("SF",)], foreign_opts=NF, prepop=False), 4)]
         ctx.bound["scripts"] = "per-attempt outcome strings over {S,F,O,W}: S F FS O W everywhere; SF SO SW SFS SSF FSF single 1..3 runs; vectorised SF/SO/SW/FS mixes 1..2 runs; real runner SF"
+        # commands terminated by a signal
+        sig = [("K",), ("G",), ("Z",), ("SK",), ("KS",)]
+        parts += [(3, T, False, x) for x in chunk(configs("single", k2, {"k0": sig, "k1": [("S",), ("K",)]}, foreign_opts=NF), nproc * 2)]
+        parts += [(2, T, False, x) for x in chunk(configs("vector", k2, [("K", "S"), ("S", "G"), ("Z", "S"), ("K", "F"), ("SK", "S")], foreign_opts=NF), nproc * 2)]
+        parts += [(2, T, False, x) for x in chunk(configs("single", k2, [("K",), ("G",), ("Z",)], "none", foreign_opts=NF), nproc)]
+        parts += [(2, T, False, x) for x in chunk(configs("single", k2, [("K",), ("Z",)], strict=False, foreign_opts=NF), nproc)]
+        parts += [(2, T, True, x) for x in chunk(configs("single", k2, [("K",)], foreign_opts=NF, prepop=False), 4)]
         # the input differs in exactly one field of JobInput
         for v in VARY:
             parts += [(3 if v in ("jid", "envars-value", "timeout") else 2, T, False, x) for x in chunk(configs("single", k2, [("S",), ("F",), ("FS",)], foreign_opts=NF, vary=v), 8)]
